@@ -71,7 +71,13 @@ def _reg():
 
 
 def _entries(fn):
-    return [e for e in _reg().values() if isinstance(e, Entry) and e.fn == fn]
+    return _reg().setdefault('_byfn', {}).get(fn, [])
+
+
+def _add(k, entry):
+    r = _reg()
+    r[k] = entry
+    r.setdefault('_byfn', {}).setdefault(entry.fn, []).append(entry)
 
 
 def _lookup(fn, x):
@@ -174,7 +180,7 @@ def sqrt(x):
     c.axioms.append(r >= 0)
     nonneg = x >= 0
     _ax(sb_or([~nonneg if isinstance(nonneg, SB) else (not nonneg), out * out == x]))
-    _reg()[k] = Entry('sqrt', x, out, k)
+    _add(k, Entry('sqrt', x, out, k))
     return out
 
 
@@ -239,7 +245,7 @@ def exp(x):
             if d is not None and d == 0:
                 _ax(out * a.out == 1)
     _ax(sb_and([(x < 0) == (out < 1), (x == 0) == (out == 1)]))
-    _reg()[k] = Entry('exp', x, out, k)
+    _add(k, Entry('exp', x, out, k))
     return out
 
 
@@ -300,7 +306,7 @@ def pow10(x):
     for kk in range(-6, 7):
         pk = Fr(10) ** kk
         _ax(sb_and([(x < kk) == (out < pk), (x == kk) == (out == pk)]))
-    _reg()[k] = Entry('pow10', x, out, k)
+    _add(k, Entry('pow10', x, out, k))
     return out
 
 
@@ -365,7 +371,7 @@ def log10(x):
                 if q is not None and q > 0 and _exact_log10(q) is not None:
                     _ax(a.out == out + b.out + _exact_log10(q))
     _ax(sb_and([(x < 1) == (out < 0), (x == 1) == (out == 0)]))
-    _reg()[k] = Entry('log10', x, out, k)
+    _add(k, Entry('log10', x, out, k))
     return out
 
 
@@ -414,7 +420,7 @@ def log(x):
             _ax(sb_and([(x < o.arg) == (out < o.out), (x == o.arg) == (out == o.out)]))
     _ax(sb_and([(x < 1) == (out < 0), (x == 1) == (out == 0)]))
     _ax(out <= x - 1)
-    _reg()[k] = Entry('log', x, out, k)
+    _add(k, Entry('log', x, out, k))
     return out
 
 
@@ -539,7 +545,7 @@ def cossin(x):
         for q in range(-4, 5):
             c_, s_ = tab[q % 4]
             _ax(sb_or([x != pi * Fr(q, 2), sb_and([co == c_, so == s_])]))
-    _reg()[k] = Entry('cs', x, (co, so), k)
+    _add(k, Entry('cs', x, (co, so), k))
     return co, so
 
 
@@ -577,7 +583,7 @@ def erfc(x):
                 _ax(sb_and([(x < o.arg) == (out > o.out), (x == o.arg) == (out == o.out)]))
                 _ax(sb_and([(x < -o.arg) == (out > 2 - o.out), (x == -o.arg) == (out == 2 - o.out)]))
     _ax(sb_and([(x < 0) == (out > 1), (x == 0) == (out == 1)]))
-    _reg()[k] = Entry('erfc', x, out, k)
+    _add(k, Entry('erfc', x, out, k))
     return out
 
 
